@@ -12,6 +12,8 @@ S->C:  every exported case is instantiated for several fluids (oil, salinity, ga
 """
 from __future__ import annotations
 
+import numpy as np
+
 import math
 from concurrent.futures import ProcessPoolExecutor
 
@@ -96,8 +98,62 @@ def replay_cases(ctx: core.Ctx, cases: list[dict], n_inst: int) -> None:
                     "result_dtype": obs.get("dtype"), "ulps": obs.get("ulps")})
 
 
+def shuffled_stage(ctx: core.Ctx, cases: list[dict], n_inst: int) -> None:
+    """Longer arrays in an order that is neither ascending nor descending (the sorting permutation is a 6-cycle, not its own
+    inverse), straddling p_b: the same elementwise rule of FluidsArray.tla, outside the TLC lattice of length <= 3."""
+    tol = {}
+    for c in cases:
+        tol[(c["fn"], c["dtype"])] = max(tol.get((c["fn"], c["dtype"]), 0), c["tol"])
+    for i in range(n_inst):
+        inst = drv.make_inst([ctx.seed, 11, i])
+        rng = np.random.default_rng([ctx.seed, 11, i, 77])
+        pb = inst["pb"]
+        for fn, (arr_call, sc_call) in drv.calls(inst).items():
+            below = sorted(rng.uniform(15.0, 0.98 * pb, 3))
+            above = sorted(rng.uniform(1.02 * pb, min(2.5 * pb, drv.P_MAX), 3))
+            vals = above + above[:0] if fn == "oil_compressibility_undersat_Spivey" else below + above
+            if fn == "oil_compressibility_undersat_Spivey":
+                vals = sorted(rng.uniform(1.02 * pb, min(2.5 * pb, drv.P_MAX), 6))
+            for dt in ("f64", "i64"):
+                arr = np.roll(np.array(vals, dtype=drv.NP_DTYPE[dt]), 2)
+                before = drv.digest(arr)
+                key = f"shuffled/{fn}/{dt}#{i}"
+                ctx.case(key)
+                try:
+                    res = np.asarray(arr_call(arr))
+                except Exception as ex:  # noqa: BLE001
+                    ctx.violation("Returns", f"{fn} on a shuffled {dt} array {arr.tolist()} raised {type(ex).__name__}: {ex}",
+                                  replay={"stage": "shuffled", "fn": fn, "dtype": dt, "inst": inst, "arr": arr.tolist()})
+                    continue
+                what = None
+                if drv.digest(arr) != before:
+                    what = ("InputUnchanged", "the input array was modified")
+                elif res.shape != arr.shape:
+                    what = ("Shape", f"result shape {res.shape} for input shape {arr.shape}")
+                else:
+                    t = tol.get((fn, dt), 64)
+                    for k in range(len(arr)):
+                        ref = float(sc_call(float(arr[k])))
+                        u = drv.ulps_of(res[k], ref, "f64")
+                        if not u <= t:
+                            what = ("Elementwise", f"element {k} (p={float(arr[k])!r}): array {float(res[k])!r}, scalar {ref!r} "
+                                                   f"({u:.3g} ulp > {t})")
+                            break
+                if what:
+                    ctx.violation(what[0], f"{fn} on shuffled {dt} array {arr.tolist()} (fluid T={inst['T']} API={inst['API']} "
+                                  f"gg={inst['gg']:.6g} GOR={inst['R']} p_b={pb!r}): {what[1]}",
+                                  replay={"stage": "shuffled", "fn": fn, "dtype": dt, "inst": inst, "arr": arr.tolist()})
+
+
 def replay(ctx: core.Ctx, obj: dict) -> None:
     r = obj["replay"]
+    if r.get("stage") == "shuffled":
+        arr_call, sc_call = drv.calls(r["inst"])[r["fn"]]
+        arr = np.array(r["arr"], dtype=drv.NP_DTYPE[r["dtype"]])
+        print("array :", np.asarray(arr_call(arr)).tolist())
+        print("scalar:", [float(sc_call(float(x))) for x in arr])
+        ctx.case("replay-1"); ctx.case("replay-2")
+        return
     case, inst = r["case"], r["inst"]
     obs = drv.run_case(case, inst, r["seed_seq"])
     print("case:", _brief(case), "| fluid:", {k: inst[k] for k in ("T", "API", "gg", "R", "sal", "pb")})
@@ -140,3 +196,4 @@ def run(ctx: core.Ctx) -> None:
         raise tlc.MachineryError(f"expected {EXPECTED_CASES[3]} exported cases, got {len(cases)}")
     cases.sort(key=lambda c: (c["fn"], c["dtype"], c["layout"], c["n"], c["sides"]))
     replay_cases(ctx, cases, n_inst=6 if ctx.quick else 64)
+    shuffled_stage(ctx, cases, n_inst=6 if ctx.quick else 64)
